@@ -20,7 +20,8 @@ RULE = ("Hypothesis draws a series (9 classes, n 4..200, |v|<=1e4), a gap patter
         "whits / whitsvc / whitswcv accessors with nodata passed as argument (0 included) while the array carries an unrelated nodata attribute. Non-trivial: "
         ">=1 missing cell; distinct by content hash. Cases whose reference curve leaves int16 are discarded and counted. "
         " Added after the fourth seeded round: Encodings also include 'mixed' (nodata, NaN and +-inf cells inside one series) and, on gap-free series holding the wrapped values, nodata values no cell can hold (65535, NaN, 0.5, 1e10). "
-        " Added after the fifth seeded round: Generic sub-check 'history' (harness/history.py): one object queried repeatedly through whits/whitsvc/whitswcv with sticky arguments while attributes, cells and time labels are edited in place and other same-shaped objects are processed; every answer equals that of a brand-new object, earlier results are re-compared at the end.")
+        " Added after the fifth seeded round: Generic sub-check 'history' (harness/history.py): one object queried repeatedly through whits/whitsvc/whitswcv with sticky arguments while attributes, cells and time labels are edited in place and other same-shaped objects are processed; every answer equals that of a brand-new object, earlier results are re-compared at the end. "
+        " Added after the sixth seeded round: sub-check 'gapfill_robust': the band of the robust GCV variants on gappy series (levels below / across zero emphasised) must be one of the outcomes the set-valued robust reference model (C05) admits on the valid cells only.")
 ASSUME = ["LAPACK banded solvers (scipy.linalg.solveh_banded) as reference", "rounding-tie and fragility rules of DESIGN 2.5/2.7"]
 
 NONFINITE = [float("nan"), float("inf"), float("-inf")]
@@ -164,7 +165,16 @@ def sub_accessor(case):
                 op, fmt(base[1]), fmt(g)), "%s accessor placeholder dependence (sgrid)" % op)
 
 
-SUBS = {"placeholder": sub_placeholder, "gapfill": sub_gapfill, "passthrough": sub_passthrough, "accessor": sub_accessor}
+def sub_gapfill_robust(case, rec=None):
+    """Gap filling of the ROBUST cross-validation smoothers: swapping placeholders cannot show a missing cell that is treated as an
+    observation of some fixed value (every placeholder is blanked the same way), so the band - the missing cells included - is held
+    to the set-valued reference model of the robust algorithm run on the VALID cells only (the model of C05)."""
+    from props import c05
+
+    return c05.sub_robust_ref(case, rec)
+
+
+SUBS = {"placeholder": sub_placeholder, "gapfill": sub_gapfill, "gapfill_robust": sub_gapfill_robust, "passthrough": sub_passthrough, "accessor": sub_accessor}
 
 
 @st.composite
@@ -265,6 +275,35 @@ def run(ctx):
                  cls=[case["variant"], "gap:" + case["gcls"], "y:" + case["ycls"]])
 
     ctx.given("gapfill", smoother_case(nonrobust, nmax=ctx.n(120, 200), gapfill=True), ctx.n(700, 10000), fn=f_gapfill)
+
+    @st.composite
+    def robust_gap_case(draw):
+        from props import c05
+
+        case = draw(st.one_of(c05.gcase(ctx.n(60, 120)), c05.spike_case()))
+        y, valid = list(case["y"]), list(case["valid"])
+        n = len(y)
+        if all(valid) and n >= 7:
+            for q in draw(st.lists(st.integers(0, n - 1), min_size=1, max_size=max(1, min(4, n - 6)), unique=True)):
+                valid[q] = False
+        where = draw(st.sampled_from(["as_is", "below_zero", "across_zero", "below_zero"]))
+        if where != "as_is":
+            # a level at which "missing = observation of 0" lies ABOVE (or inside) the data, where the robust weights do not reject it
+            hi, lo = max(y), min(y)
+            shift = (hi + draw(st.integers(50, 3000))) if where == "below_zero" else (hi + lo) // 2
+            if lo - shift >= -10000:
+                y = [v - shift for v in y]
+        case.update({"y": y, "valid": valid, "nodata": gens.placeholder_for(y, valid, draw(st.sampled_from(["below", "above", "inside"]))), "level": where})
+        return case
+
+    def f_gapfill_robust(case):
+        why = sub_gapfill_robust(case, rec)
+        if why:
+            rec.discard("gapfill_robust", why)
+        rec.case("gapfill_robust", case, nontrivial=(not all(case["valid"])) and why is None,
+                 cls=["wcvp_r" if case.get("p") is not None else "wcv_r", "level:" + case["level"], "gaps" if not all(case["valid"]) else "nogaps"])
+
+    ctx.given("gapfill_robust", robust_gap_case(), ctx.n(400, 6000), fn=f_gapfill_robust)
 
     @st.composite
     def acc_case(draw):
